@@ -778,7 +778,13 @@ pub fn run_check(spec: &CheckSpec, tier: Tier, seed: u64) -> i32 {
     coverage.insert("evaluations".into(), json!(merged.evaluations));
     coverage.insert("distinct_nontrivial".into(), json!(merged.distinct.len()));
     coverage.insert("rule".into(), json!(spec.info.rule));
-    coverage.insert("samples".into(), json!(merged.samples));
+    // (samples are taken from completed cases; when every case ended in a violation the witnesses are the samples)
+    let samples: Vec<Value> = if merged.samples.is_empty() {
+        new_v.iter().take(4).map(|(s, d, _)| json!({"violating_case": d, "sig": s})).collect()
+    } else {
+        merged.samples.clone()
+    };
+    coverage.insert("samples".into(), json!(samples));
     coverage.insert("exhaustive".into(), json!(false));
     coverage.insert("exhaustive_subspaces".into(), json!(spec.info.exhaustive_subspaces));
     coverage.insert("counters".into(), json!(merged.counters));
